@@ -120,13 +120,16 @@ def Sp.startsAtOrAfterEndOf (a b : Sp) : Bool :=
   a.ls > b.le || (a.ls == b.le && a.cs ≥ b.ce)
 
 /-- A range expression without `Span::join`: its start operand's span is its first token's,
-its end operand's span is the span of the first token after the `..` / `..=`. -/
+its end operand's span is the span of the first token after the `..` / `..=`, and the
+`..` / `..=` itself is represented by its first character. -/
 def UExpr.noJoinRange (e : UExpr) : UExpr :=
   match e.cls with
   | .range st lim en =>
     let st' := st.bind fun _ => e.toks.head?.map (·.sp)
     let en' := en.bind fun _ => (e.toks.find? fun t => t.sp.startsAtOrAfterEndOf lim).map (·.sp)
-    { e.noJoin with cls := .range st' lim en' }
+    -- the `..` / `..=` token itself is several punctuation characters: without `join` its span is the first
+    let lim' : Sp := ⟨lim.ls, lim.cs, lim.ls, lim.cs + 1⟩
+    { e.noJoin with cls := .range st' lim' en' }
   | _ => e.noJoin
 
 mutual
